@@ -19,7 +19,7 @@ from evidence import Outcome
 
 
 def make_units(seed, n, wd):
-    profs = ["memo", "leftrec", "trace", "core", "userfn"]
+    profs = ["memo", "unicode", "leftrec", "unicode", "userfn", "mix", "unicode", "trace", "core", "unicode"]
     units = []
     cases = []
     texts = {}
@@ -41,7 +41,7 @@ def make_units(seed, n, wd):
                       "exports": [(r.name, types[r.name].position) for r in g.exported()], "ctx": False})
         irnd = random.Random("c20i/%s/%d" % (seed, i))
         for r in g.exported():
-            for s in inputs_mod.inputs_for(g, r.name, irnd, n_sent=6, n_total=16):
+            for s in inputs_mod.inputs_for(g, r.name, irnd, n_sent=6, n_total=16, unicode_heavy=(prof in ("unicode", "mix"))):
                 cases.append(("c%d" % k, i, r.name, 2, 50000000, s))
                 k += 1
     return units, cases, texts
@@ -62,7 +62,7 @@ def check_C20(tier, seed):
     out = Outcome("C20", tier, seed)
     wd = tempfile.mkdtemp(prefix="vf20_", dir=build.WORK)
     try:
-        n = 10 if tier == "quick" else 40
+        n = 40 if tier == "quick" else 100
         units, cases, texts = make_units(seed, n, wd)
         jobs = [("g%d" % u["gidx"], u["gpath"], u["code_path"], "-", "-") for u in units]
         r = build.run_cgdrv("gen", jobs, wd)
@@ -109,6 +109,41 @@ def check_C20(tier, seed):
                     c = bycase[cid]
                     out.violation("c20:history-dependent:%s:%s" % (c[1], c[2]), "parsing %r again after other inputs gave a different result / trace (rule %s)" % (c[5], c[2]),
                                   {"grammar_text": texts[c[1]], "rule": c[2], "input": c[5], "first": list(map(str, base.get(cid) or []))[:1], "later": str(fp[0])})
+        # (a2) fresh-process reference: a sample of cases parsed alone, each in its own process, must equal what the same
+        # case gave inside the long-lived sequential run (state surviving a parse anywhere in the process shows here)
+        from concurrent.futures import ThreadPoolExecutor
+        srnd = random.Random("c20/%s/fresh" % seed)
+        sample = srnd.sample(cases, min(len(cases), 500 if tier == "quick" else 2500))
+
+        def alone(c):
+            cpf = os.path.join(wd, "one_%s.tsv" % c[0])
+            lpf = os.path.join(wd, "one_%s.log" % c[0])
+            write_cases(cpf, [c])
+            try:
+                subprocess.run([binp, cpf, lpf], stdout=subprocess.DEVNULL, stderr=subprocess.DEVNULL, timeout=120, env=build.BASE_ENV)
+                obs1 = build.parse_log(lpf)
+                rec = obs1[c[0]]["rec"][0]
+                return c, fingerprint(rec)
+            except Exception:
+                return c, None
+            finally:
+                for pth in (cpf, lpf):
+                    if os.path.exists(pth):
+                        os.remove(pth)
+        fresh_checked = 0
+        with ThreadPoolExecutor(max_workers=build.NCPU) as ex:
+            for c, fp in ex.map(alone, sample):
+                if fp is None:
+                    out.inconc("fresh_process_run_failed")
+                    continue
+                evaluations += 1
+                fresh_checked += 1
+                if fp[0] and (fp[0][0] == "ok" or (fp[0][0] == "err" and fp[0][1] > 0)):
+                    nontriv += 1
+                if fp != base.get(c[0]):
+                    out.violation("c20:differs-from-fresh-process:%s:%s" % (c[1], c[2]), "parsing %r alone in a fresh process gives a different result / trace than inside a process that parsed other inputs before (rule %s)" % (c[5], c[2]),
+                                  {"grammar_text": texts[c[1]], "rule": c[2], "input": c[5], "fresh_process": str(fp[0]), "long_lived_process": str((base.get(c[0]) or [None])[0])})
+        out.coverage["fresh_process_references"] = fresh_checked
         # (b) threads
         configs = [(2, 1), (4, 1), (8, 2), (16, 2)] if tier == "quick" else [(2, 0), (2, 2), (3, 1), (4, 2), (8, 1), (8, 2), (16, 1), (16, 2), (32, 2)]
         overlaps = 0
